@@ -91,6 +91,7 @@ fn failing_enc_calls(rng: &mut Rng, enc: &mut dyn DynEnc, size: usize, log: &mut
 }
 
 fn encoder_history(rng: &mut Rng, out: &mut CaseOut) {
+    let fills0 = hooks::poison_fills();
     let poisoned = hooks::armed() && rng.chance(1, 2);
     let rounds = rng.range(2, 8);
     let mut api = pick_api(rng, true);
@@ -248,6 +249,7 @@ fn encoder_history(rng: &mut Rng, out: &mut CaseOut) {
             out.tag(format!("enc-step:{t}"));
         }
     }
+    out.add("working-memory poison fills (hook H1)", hooks::poison_fills() - fills0);
     out.sample = Some(jobj(&[
         ("kind", jstr("encoder-history")),
         ("poisoned", poisoned.to_string()),
@@ -290,6 +292,7 @@ fn failing_dec_calls(rng: &mut Rng, dec: &mut dyn DynDec, size: usize, log: &mut
 }
 
 fn decoder_history(rng: &mut Rng, out: &mut CaseOut) {
+    let fills0 = hooks::poison_fills();
     let poisoned = hooks::armed() && rng.chance(1, 2);
     let rounds = rng.range(2, 8);
     let mut api = pick_api(rng, true);
@@ -452,6 +455,7 @@ fn decoder_history(rng: &mut Rng, out: &mut CaseOut) {
             out.tag(format!("dec-step:{t}"));
         }
     }
+    out.add("working-memory poison fills (hook H1)", hooks::poison_fills() - fills0);
     out.sample = Some(jobj(&[
         ("kind", jstr("decoder-history")),
         ("poisoned", poisoned.to_string()),
